@@ -64,9 +64,9 @@ func NewClientWithLogger(
 	channel ClientChannel,
 	logger log.Logger,
 ) Client {
-	decMode, err := cbor.DecOptions{
-		ExtraReturnErrors: cbor.ExtraDecErrorUnknownField,
-	}.DecMode()
+	clientDecOptions := decOptions()
+	clientDecOptions.ExtraReturnErrors = cbor.ExtraDecErrorUnknownField
+	decMode, err := clientDecOptions.DecMode()
 	if err != nil {
 		panic(err)
 	}
@@ -80,7 +80,7 @@ func NewClientWithLogger(
 		decMode,
 		logger,
 		decMode.NewDecoder(channel),
-		cbor.NewEncoder(channel),
+		encMode().NewEncoder(channel),
 		make([]schema.Input, 0),
 		make(map[string]*executionEntry),
 		make(map[string]chan<- schema.Input),
@@ -201,7 +201,7 @@ func (c *client) Execute(
 	}
 	// Wrap it in a runtime message, and encode it before anything is registered for the run: input that cannot be
 	// encoded is the caller's error and must not leave a read loop behind that waits for a reply to nothing.
-	encodedWorkStart, err := cbor.Marshal(
+	encodedWorkStart, err := encMode().Marshal(
 		RuntimeMessage{RunID: stepData.RunID, MessageID: MessageTypeWorkStart, MessageData: workStartMsg})
 	if err != nil {
 		return NewErrorExecutionResult(fmt.Errorf("failed to encode work start message (%w)", err))
